@@ -1,7 +1,7 @@
 /-
-  Lemmas for C25, save strategy `latest`, repaired protocol: the directory is `GoodL` (marker absent, or marker = i and the
-  `latest.*` files are those of iteration i) at every crash point OUTSIDE the window "a latest.* file has been moved into
-  place since the marker was last moved", and from a `GoodL` directory resume returns the uninterrupted result.
+  Lemmas for C25, save strategy `latest`, repaired protocol (temp + os.replace everywhere, marker written last, and the
+  marker REMOVED before latest.* is overwritten): the directory is `GoodL` (marker absent, or marker = i and the `latest.*`
+  files are those of iteration i) at EVERY crash point, and from a `GoodL` directory resume returns the uninterrupted result.
 -/
 import NiftyVerif.Lemmas.CrashCl
 namespace NiftyVerif.CrashCl
@@ -18,123 +18,25 @@ def GoodAtL (sys : Sys S) (s0 : S) (i : Nat) (fs : FS Path) : Prop :=
 def GoodL (sys : Sys S) (s0 : S) (total : Nat) (fs : FS Path) : Prop :=
   fs .marker = none ∨ ∃ i, i < total ∧ GoodAtL sys s0 i fs
 
-/-- has a `latest.*` sample/mean file been moved into place since the marker was last moved? (scan of an op sequence) -/
-def pendStep (acc : Bool) : Op Path → Bool
-  | .replace _ .marker => false
-  | .replace _ (.sample .latest _) => true
-  | .replace _ (.mean .latest) => true
-  | _ => acc
-
-def pend (acc : Bool) (ops : List (Op Path)) : Bool := ops.foldl pendStep acc
-
-theorem pend_append (acc : Bool) (a b : List (Op Path)) : pend acc (a ++ b) = pend (pend acc a) b := by
-  simp [pend, List.foldl_append]
-
-/-- ops that are no `replace` at all leave the flag alone -/
-theorem pend_noreplace (acc : Bool) (ops : List (Op Path)) (h : ∀ o ∈ ops, ∀ a b, o ≠ Op.replace a b) :
-    pend acc ops = acc := by
-  induction ops generalizing acc with
-  | nil => rfl
-  | cons o ops ih =>
-    simp only [pend, List.foldl_cons]
-    have h1 : pendStep acc o = acc := by
-      cases o <;> simp [pendStep]
-      exact absurd rfl (h _ (List.mem_cons_self) _ _)
-    rw [h1]; exact ih acc (fun o' ho' => h o' (List.mem_cons_of_mem _ ho'))
-
-theorem writeFile_noreplace (p : Path) (c : Bytes) : ∀ o ∈ writeFile p c, ∀ a b, o ≠ Op.replace a b := by
-  intro o ho a b
-  simp only [writeFile, List.mem_cons, List.mem_append, List.mem_map, List.not_mem_nil, or_false] at ho
-  rcases ho with rfl | ⟨x, _, rfl⟩ | rfl <;> simp
-
-theorem appendFile_noreplace (p : Path) (c : Bytes) : ∀ o ∈ appendFile p c, ∀ a b, o ≠ Op.replace a b := by
-  intro o ho a b
-  simp only [appendFile, List.mem_cons, List.mem_append, List.mem_map, List.not_mem_nil, or_false] at ho
-  rcases ho with rfl | ⟨x, _, rfl⟩ | rfl <;> simp
-
-/-- once a latest.* file has been moved, nothing in the rest of the iteration body (which contains no marker move) resets
-    the flag -/
-theorem pend_true_of_no_marker (ops : List (Op Path)) (h : ∀ o ∈ ops, ∀ a, o ≠ Op.replace a .marker) :
-    pend true ops = true := by
-  induction ops with
-  | nil => rfl
-  | cons o ops ih =>
-    simp only [pend, List.foldl_cons]
-    have h1 : pendStep true o = true := by
-      cases o with
-      | replace a b =>
-        cases b with
-        | marker => exact absurd rfl (h _ (List.mem_cons_self) a)
-        | sample bb k => cases bb <;> simp [pendStep]
-        | mean bb => cases bb <;> simp [pendStep]
-        | _ => simp [pendStep]
-      | _ => simp [pendStep]
-    rw [h1]; exact ih (fun o' ho' => h o' (List.mem_cons_of_mem _ ho'))
-
-/-! ### one iteration, strategy `latest` -/
-
-/-- the part of `sl.save` before the first `os.replace` onto a latest.* file -/
-def headL (sys : Sys S) (s' : S) : List (Op Path) :=
-  Op.remove (.sample .latest sys.nsamp) :: writeFile (.sampleTmp .latest 0) (sys.encSample s' 0)
-
-theorem body_no_marker_replace (sys : Sys S) (strat : Strategy) (j : Nat) (s' : S) :
-    ∀ o ∈ body sys strat j s', ∀ a, o ≠ Op.replace a .marker := by
-  intro o ho a h
-  subst h
-  have := body_touches sys strat j s' .marker _ ho (by simp [Op.touches])
-  simp [own] at this
-
-/-- the rest of the body after the first move onto latest.0 (`m + 1` sample files) -/
-def tailL (sys : Sys S) (m j : Nat) (s' : S) : List (Op Path) :=
-  ((List.range m).map (· + 1)).flatMap
-      (fun k => saveOne .repaired (.sample .latest k) (.sampleTmp .latest k) (sys.encSample s' k)) ++
-    saveOne .repaired (.mean .latest) (.meanTmp .latest) (sys.encMean s') ++
-    atomicWrite (.ehist .latest) (.ehistTmp .latest) (sys.encE j) ++ appendFile .sanity (sys.msgS j) ++
-    atomicWrite (.mhist .latest) (.mhistTmp .latest) (sys.encM j) ++ writeFile .markerTmp (sys.digits j)
-
-/-- the body starts with `headL`, then the first move onto latest.0, then a rest without marker move -/
-theorem body_split (sys : Sys S) (hn : 0 < sys.nsamp) (j : Nat) (s' : S) :
-    ∃ tail, body sys .latest j s' =
-        headL sys s' ++ [Op.replace (.sampleTmp .latest 0) (.sample .latest 0)] ++ tail ∧
-      (∀ o ∈ tail, ∀ a, o ≠ Op.replace a .marker) := by
-  obtain ⟨m, hm⟩ : ∃ m, sys.nsamp = m + 1 := ⟨sys.nsamp - 1, by omega⟩
-  have hb := body_no_marker_replace sys .latest j s'
-  have hr : List.range sys.nsamp = 0 :: (List.range m).map (· + 1) := by rw [hm, List.range_succ_eq_map]
-  have heq : body sys .latest j s' =
-      headL sys s' ++ [Op.replace (.sampleTmp .latest 0) (.sample .latest 0)] ++ tailL sys m j s' := by
-    simp only [body, baseOf, saveSamples, hr, List.flatMap_cons, saveOne, atomicWrite, headL, tailL, List.append_assoc,
-      List.cons_append, List.nil_append]
-  refine ⟨tailL sys m j s', heq, ?_⟩
-  intro o ho a
-  apply hb o
-  rw [heq]
-  exact List.mem_append_right _ ho
-
-theorem pend_headL (sys : Sys S) (s' : S) (acc : Bool) {t : List (Op Path)} (ht : t <+: headL sys s') :
-    pend acc t = acc := by
-  apply pend_noreplace
-  intro o ho a b
-  have := mem_of_mem_prefix ht ho
-  simp only [headL, List.mem_cons] at this
-  rcases this with rfl | h
-  · simp
-  · exact writeFile_noreplace _ _ o h a b
-
-/-- crash points before the first move: only the temp file of sample 0 changes (and the already absent next sample is
-    unlinked) -/
-theorem headL_prefix_frame (sys : Sys S) (s' : S) {t : List (Op Path)} (ht : t <+: headL sys s') (fs : FS Path)
-    (q : Path) (hq : q ≠ .sampleTmp .latest 0) (hnone : q = .sample .latest sys.nsamp → fs q = none) :
-    execs fs t q = fs q := by
-  unfold headL at ht
-  rw [List.prefix_cons_iff] at ht
-  rcases ht with rfl | ⟨t', rfl, ht'⟩
-  · rfl
-  · rw [execs_cons, execs_frame t' q]
-    · by_cases h : q = .sample .latest sys.nsamp
-      · rw [hnone h]; subst h; simp [exec, FS.set]
-      · simp [exec, FS.set, h]
-    · intro o ho hto
-      exact hq (writeFile_touches _ _ _ o (mem_of_mem_prefix ht' ho) hto)
+theorem load_of_goodAtL {sys : Sys S} (hl : Lawful sys) (s0 : S) {total i : Nat} (hi : i < total) {fs : FS Path}
+    (hg : GoodAtL sys s0 i fs) :
+    load sys .latest true total s0 fs = .ok (i + 1, sAfter sys s0 (i + 1), false) := by
+  obtain ⟨h1, hf, ⟨e, he, hoe⟩, _, ⟨r, hr, hor⟩⟩ := hg
+  have hls := listSamples_of_files sys _ _ fs hf (sys.nsamp + 1) 0 (by omega)
+  rw [Nat.sub_zero, ← List.range_eq_range'] at hls
+  have hne : ((List.range sys.nsamp).map (sys.encSample (sAfter sys s0 (i + 1)))).isEmpty = false := by
+    obtain ⟨m, hm⟩ : ∃ m, sys.nsamp = m + 1 := ⟨sys.nsamp - 1, by have := hl.nsamp_pos; omega⟩
+    rw [hm, List.range_succ]; simp
+  have hcond : ((sys.encMean (sAfter sys s0 (i + 1))).isNone &&
+      ((List.range sys.nsamp).map (sys.encSample (sAfter sys s0 (i + 1)))).length != 1) = false := by
+    cases hm : sys.encMean (sAfter sys s0 (i + 1)) with
+    | some c => simp
+    | none => simp [hl.map_one _ hm]
+  unfold load
+  simp only [if_true, h1, hl.parse_digits, baseOf, hf.2.2, hls, hne, hcond, hl.dec_enc, loadable, hr, hor, he, hoe]
+  by_cases ht : i + 1 = total
+  · simp [ht]
+  · simp [ht]
 
 /-- loop precondition at iteration `j`, strategy latest -/
 def PreL (sys : Sys S) (s0 : S) (j : Nat) (fs : FS Path) : Prop :=
@@ -146,25 +48,15 @@ theorem preL_good {sys : Sys S} {s0 : S} {total j : Nat} (hj : j ≤ total) {fs 
   · exact Or.inl h
   · exact Or.inr ⟨i, by omega, h⟩
 
-theorem preL_headL_prefix {sys : Sys S} {s0 : S} {j : Nat} {fs : FS Path} (h : PreL sys s0 j fs) (s' : S)
-    {t : List (Op Path)} (ht : t <+: headL sys s') : PreL sys s0 j (execs fs t) := by
-  rcases h with ⟨h0, h1, r, hr, hor⟩ | ⟨i, rfl, hg⟩
-  · refine Or.inl ⟨h0, ?_, r, ?_, hor⟩
-    · rw [headL_prefix_frame sys s' ht fs _ (by simp) (by simp)]; exact h1
-    · rw [headL_prefix_frame sys s' ht fs _ (by simp) (by simp)]; exact hr
-  · obtain ⟨g1, ⟨g2, g3, g4⟩, g5, g6, g7⟩ := hg
-    refine Or.inr ⟨i, rfl, ?_, ⟨?_, ?_, ?_⟩, ?_, ?_, ?_⟩
-    · rw [headL_prefix_frame sys s' ht fs _ (by simp) (by simp)]; exact g1
-    · intro k hk
-      rw [headL_prefix_frame sys s' ht fs _ (by simp) (by intro h; injection h with _ h; omega)]; exact g2 k hk
-    · rw [headL_prefix_frame sys s' ht fs _ (by simp) (fun _ => g3)]; exact g3
-    · rw [headL_prefix_frame sys s' ht fs _ (by simp) (by simp)]; exact g4
-    · rw [headL_prefix_frame sys s' ht fs _ (by simp) (by simp)]; exact g5
-    · rw [headL_prefix_frame sys s' ht fs _ (by simp) (by simp)]; exact g6
-    · rw [headL_prefix_frame sys s' ht fs _ (by simp) (by simp)]; exact g7
+theorem preL_rstate {sys : Sys S} {s0 : S} {j : Nat} {fs : FS Path} (h : PreL sys s0 j fs) :
+    ∃ r, fs .rstate = some r ∧ sys.okR r = true := by
+  rcases h with ⟨_, _, hr⟩ | ⟨i, _, hg⟩
+  · exact hr
+  · exact hg.2.2.2.2
 
-/-- a completed iteration `j` establishes `GoodAtL j` -/
-theorem goodAtL_after_iter {sys : Sys S} (hl : Lawful sys) {s0 : S} {j : Nat} {fs : FS Path} (h : PreL sys s0 j fs)
+/-- a completed iteration `j` (started on a directory whose random-state file is complete) establishes `GoodAtL j` -/
+theorem goodAtL_after_iter {sys : Sys S} (hl : Lawful sys) (s0 : S) (j : Nat) (fs : FS Path)
+    (hrs0 : ∃ r, fs .rstate = some r ∧ sys.okR r = true)
     {t : List (Op Path)} (ht : t <+: appendFile .counting (sys.msgC j)) :
     GoodAtL sys s0 j
       (execs fs (body sys .latest j (sys.step j (sAfter sys s0 j)) ++ [Op.replace .markerTmp .marker] ++ t)) := by
@@ -173,9 +65,7 @@ theorem goodAtL_after_iter {sys : Sys S} (hl : Lawful sys) {s0 : S} {j : Nat} {f
   obtain ⟨b1, b2, b3, b4, b5, b6⟩ := hb
   have hrs : ∃ r, execs fs (body sys .latest j (sys.step j (sAfter sys s0 j))) .rstate = some r ∧ sys.okR r = true := by
     rw [body_prefix_frame sys .latest j _ .rstate (by simp [own]) (List.prefix_refl _)]
-    rcases h with ⟨_, _, hr⟩ | ⟨i, _, hg⟩
-    · exact hr
-    · exact hg.2.2.2.2
+    exact hrs0
   have key : GoodAtL sys s0 j
       (exec (execs fs (body sys .latest j (sys.step j (sAfter sys s0 j)))) (Op.replace .markerTmp .marker)) := by
     refine ⟨?_, ⟨?_, ?_, ?_⟩, ?_, ?_, ?_⟩
@@ -204,58 +94,43 @@ theorem goodAtL_after_iter {sys : Sys S} (hl : Lawful sys) {s0 : S} {j : Nat} {f
   · rw [hfr _ (by simp)]; exact g6
   · rw [hfr _ (by simp)]; exact g7
 
-/-- the flag after a complete iteration is down again -/
-theorem pend_iter (sys : Sys S) (j : Nat) (s' : S) (acc : Bool) :
-    pend acc (body sys .latest j s' ++ [Op.replace .markerTmp .marker] ++ appendFile .counting (sys.msgC j)) = false := by
-  rw [pend_append, pend_append, pend_noreplace _ _ (appendFile_noreplace _ _)]
-  simp [pend, pendStep]
-
-theorem load_of_goodAtL {sys : Sys S} (hl : Lawful sys) (s0 : S) {total i : Nat} (hi : i < total) {fs : FS Path}
-    (hg : GoodAtL sys s0 i fs) :
-    load sys .latest true total s0 fs = .ok (i + 1, sAfter sys s0 (i + 1), false) := by
-  obtain ⟨h1, hf, ⟨e, he, hoe⟩, _, ⟨r, hr, hor⟩⟩ := hg
-  have hls := listSamples_of_files sys _ _ fs hf (sys.nsamp + 1) 0 (by omega)
-  rw [Nat.sub_zero, ← List.range_eq_range'] at hls
-  have hne : ((List.range sys.nsamp).map (sys.encSample (sAfter sys s0 (i + 1)))).isEmpty = false := by
-    obtain ⟨m, hm⟩ : ∃ m, sys.nsamp = m + 1 := ⟨sys.nsamp - 1, by have := hl.nsamp_pos; omega⟩
-    rw [hm, List.range_succ]; simp
-  unfold load
-  simp only [if_true, h1, hl.parse_digits, baseOf, hf.2.2, hls, hne, hl.dec_enc, loadable, hr, hor, he, hoe]
-  by_cases ht : i + 1 = total
-  · simp [ht]
-  · simp [ht]
-
 /-- the first half of an iteration does not touch the minisanity history (which `_minisanity` is about to load) -/
 theorem iterOpsA_frame_mhist (sys : Sys S) (j : Nat) (s' : S) (fs : FS Path) :
     execs fs (iterOpsA sys .repaired .latest j s') (.mhist .latest) = fs (.mhist .latest) := by
   refine execs_frame _ _ (fun o ho hq => ?_) fs
-  simp only [iterOpsA, baseOf, saveValues, List.append_nil, List.mem_append] at ho
-  rcases ho with (ho | ho) | ho
+  simp only [iterOpsA, invalidate, baseOf, saveValues, List.append_nil, List.mem_append, List.mem_singleton] at ho
+  rcases ho with ((rfl | ho) | ho) | ho
+  · simp [Op.touches] at hq
   · simp only [saveSamples, saveOne, List.mem_cons, List.mem_append] at ho
-    rcases ho with rfl | ho | ho
+    rcases ho with rfl | ho | ho | ho
     · simp [Op.touches] at hq
+    · cases unlinkMean_touches sys _ _ s' _ o ho hq
     · rcases flatMap_atomic_touches (fun k => .sample .latest k) (fun k => .sampleTmp .latest k)
         (fun k => sys.encSample s' k) (List.range sys.nsamp) _ o ho hq with ⟨k, _, h | h⟩ <;> cases h
-    · rcases atomicWrite_touches _ _ _ _ o ho hq with h | h <;> cases h
+    · rcases saveMean_touches sys _ s' _ o ho hq with h | h <;> cases h
   · rcases atomicWrite_touches _ _ _ _ o ho hq with h | h <;> cases h
   · cases appendFile_touches _ _ _ o ho hq
 
-/-- the loop from `PreL j` (strategy latest, repaired): never raises, returns the uninterrupted result, the pending flag is
-    down at its end, and every crash point at which the flag is down leaves a `GoodL` directory -/
+theorem iterOps_eq_latest (sys : Sys S) (j : Nat) (s' : S) :
+    iterOpsA sys .repaired .latest j s' ++ iterOpsB sys .repaired .latest j =
+      Op.remove .marker ::
+        (body sys .latest j s' ++ [Op.replace .markerTmp .marker] ++ appendFile .counting (sys.msgC j)) := by
+  rw [iterOps_eq]; simp [invalidate]
+
+/-- the loop from `PreL j` (strategy latest, repaired): never raises, returns the uninterrupted result, and EVERY crash
+    point leaves a `GoodL` directory (between the removal of the marker and its re-creation the marker is absent) -/
 theorem loopL_good {sys : Sys S} (hl : Lawful sys) (s0 : S) (total : Nat) :
     ∀ (fuel j : Nat) (fs : FS Path), j + fuel = total → PreL sys s0 j fs →
       (loop sys .repaired .latest fuel j (sAfter sys s0 j) fs).2 = .ok (sAfter sys s0 total) ∧
-      pend false (loop sys .repaired .latest fuel j (sAfter sys s0 j) fs).1 = false ∧
-      ∀ pre, pre <+: (loop sys .repaired .latest fuel j (sAfter sys s0 j) fs).1 → pend false pre = false →
-        GoodL sys s0 total (execs fs pre) := by
+      ∀ pre, pre <+: (loop sys .repaired .latest fuel j (sAfter sys s0 j) fs).1 → GoodL sys s0 total (execs fs pre) := by
   intro fuel
   induction fuel with
   | zero =>
     intro j fs hj hpre
     have : j = total := by omega
     subst this
-    refine ⟨rfl, rfl, ?_⟩
-    intro pre hp _
+    refine ⟨rfl, ?_⟩
+    intro pre hp
     have : pre = [] := by simpa [loop] using hp
     subst this; exact preL_good (Nat.le_refl _) hpre
   | succ fuel ih =>
@@ -270,71 +145,56 @@ theorem loopL_good {sys : Sys S} (hl : Lawful sys) (s0 : S) (total : Nat) :
         · exact (h0 h).elim
         · obtain ⟨m, hm, hom⟩ := hg.2.2.2.1
           simp [hm, hom]
+    -- after the marker has been removed
+    have hrs1 : ∃ r, exec fs (Op.remove .marker) .rstate = some r ∧ sys.okR r = true := by
+      obtain ⟨r, hr, hor⟩ := preL_rstate hpre
+      exact ⟨r, by simp [exec, FS.set, hr], hor⟩
+    have hm1 : exec fs (Op.remove .marker) .marker = none := by simp [exec, FS.set]
     have hpre' : PreL sys s0 (j + 1) (execs fs (iterOpsA sys .repaired .latest j (sys.step j (sAfter sys s0 j)) ++
         iterOpsB sys .repaired .latest j)) := by
-      rw [iterOps_eq]
-      exact Or.inr ⟨j, rfl, goodAtL_after_iter hl hpre (List.prefix_refl _)⟩
+      rw [iterOps_eq_latest, execs_cons]
+      exact Or.inr ⟨j, rfl, goodAtL_after_iter hl s0 j _ hrs1 (List.prefix_refl _)⟩
     have hrec := ih (j + 1) _ (by omega) hpre'
     rw [sAfter_succ] at hrec
     simp only [loop, hchk]
     rw [← execs_append]
-    have hpi : pend false (iterOpsA sys .repaired .latest j (sys.step j (sAfter sys s0 j)) ++
-        iterOpsB sys .repaired .latest j) = false := by rw [iterOps_eq]; exact pend_iter sys j _ false
-    refine ⟨hrec.1, ?_, ?_⟩
-    · rw [pend_append, hpi]; exact hrec.2.1
-    intro pre hp hpend
+    refine ⟨hrec.1, ?_⟩
+    intro pre hp
     rcases prefix_append_cases hp with h | ⟨t, rfl, ht⟩
     · -- crash inside iteration j
-      rw [iterOps_eq, List.append_assoc] at h
-      obtain ⟨tail, hsplit, htail⟩ := body_split sys hl.nsamp_pos j (sys.step j (sAfter sys s0 j))
-      have hbody_pend : ∀ u, u <+: tail → pend false (headL sys (sys.step j (sAfter sys s0 j)) ++
-          [Op.replace (.sampleTmp .latest 0) (.sample .latest 0)] ++ u) = true := by
-        intro u hu
-        rw [pend_append, pend_append, pend_headL sys _ false (List.prefix_refl _)]
-        simp only [pend, List.foldl_cons, List.foldl_nil, pendStep]
-        exact pend_true_of_no_marker u (fun o ho => htail o (mem_of_mem_prefix hu ho))
-      rcases prefix_append_cases h with h1 | ⟨t1, rfl, ht1⟩
-      · -- inside the body
-        rw [hsplit, List.append_assoc] at h1
-        rcases prefix_append_cases h1 with h2 | ⟨u, rfl, hu⟩
-        · exact preL_good (by omega) (preL_headL_prefix hpre _ h2)
-        · rw [List.singleton_append, List.prefix_cons_iff] at hu
-          rcases hu with rfl | ⟨u', rfl, hu'⟩
-          · rw [List.append_nil]
-            exact preL_good (by omega) (preL_headL_prefix hpre _ (List.prefix_refl _))
-          · have := hbody_pend u' hu'
-            rw [List.append_assoc, List.singleton_append] at this
-            rw [this] at hpend; cases hpend
-      · rw [List.singleton_append, List.prefix_cons_iff] at ht1
-        rcases ht1 with rfl | ⟨t2, rfl, ht2⟩
-        · -- exactly the body: the flag is up
-          rw [List.append_nil, hsplit] at hpend
-          rw [hbody_pend tail (List.prefix_refl _)] at hpend; cases hpend
-        · refine Or.inr ⟨j, by omega, ?_⟩
-          have := goodAtL_after_iter hl hpre ht2
-          simpa [List.append_assoc] using this
+      rw [iterOps_eq_latest, List.prefix_cons_iff] at h
+      rcases h with rfl | ⟨t0, rfl, ht0⟩
+      · exact preL_good (by omega) hpre
+      · rw [execs_cons]
+        rw [List.append_assoc] at ht0
+        rcases prefix_append_cases ht0 with h1 | ⟨t1, rfl, ht1⟩
+        · -- the marker is gone and nothing in the body brings it back
+          left
+          rw [body_prefix_frame sys .latest j _ .marker (by simp [own]) h1]; exact hm1
+        · rw [List.singleton_append, List.prefix_cons_iff] at ht1
+          rcases ht1 with rfl | ⟨t2, rfl, ht2⟩
+          · left
+            rw [List.append_nil, body_prefix_frame sys .latest j _ .marker (by simp [own]) (List.prefix_refl _)]
+            exact hm1
+          · refine Or.inr ⟨j, by omega, ?_⟩
+            have := goodAtL_after_iter hl s0 j _ hrs1 ht2
+            simpa [List.append_assoc] using this
     · rw [execs_append]
-      rw [pend_append, hpi] at hpend
-      exact hrec.2.2 t ht hpend
+      exact hrec.2 t ht
 
 /-- every start of the driver on a `GoodL` directory (resume=True, or any flag on a directory without marker) returns the
-    uninterrupted result, and every crash point of it at which no latest.* file has been moved since the last marker move
-    leaves a `GoodL` directory -/
+    uninterrupted result, and every crash point of it leaves a `GoodL` directory -/
 theorem runL_good {sys : Sys S} (hl : Lawful sys) (s0 : S) (total : Nat) {fs : FS Path} (resume : Bool)
     (hg : GoodL sys s0 total fs) (hres : resume = true ∨ fs .marker = none) :
     (run sys .repaired .latest resume total s0 fs).2 = .ok (sAfter sys s0 total) ∧
-      ∀ pre, pre <+: (run sys .repaired .latest resume total s0 fs).1 → pend false pre = false →
-        GoodL sys s0 total (execs fs pre) := by
+      ∀ pre, pre <+: (run sys .repaired .latest resume total s0 fs).1 → GoodL sys s0 total (execs fs pre) := by
   have fresh : fs .marker = none → load sys .latest resume total s0 fs = .ok (0, s0, true) := by
     intro h; cases resume <;> simp [load, h]
   have mk_untouched : ∀ o ∈ preOps, ∀ q, Op.touches q o = true → False := by
     intro o ho q hq; simp [preOps] at ho; rcases ho with rfl | rfl <;> simp [Op.touches] at hq
-  have mk_noreplace : ∀ o ∈ preOps, ∀ a b, o ≠ Op.replace a b := by
-    intro o ho a b; simp [preOps] at ho; rcases ho with rfl | rfl <;> simp
   have case_fresh : fs .marker = none →
       ((run sys .repaired .latest resume total s0 fs).2 = .ok (sAfter sys s0 total) ∧
-        ∀ pre, pre <+: (run sys .repaired .latest resume total s0 fs).1 → pend false pre = false →
-          GoodL sys s0 total (execs fs pre)) := by
+        ∀ pre, pre <+: (run sys .repaired .latest resume total s0 fs).1 → GoodL sys s0 total (execs fs pre)) := by
     intro hm
     have hload := fresh hm
     simp only [run, hload, if_true, Nat.sub_zero]
@@ -348,7 +208,7 @@ theorem runL_good {sys : Sys S} (hl : Lawful sys) (s0 : S) (total : Nat) {fs : F
       · rw [execs_append]; exact execs_writeFile _ _ _
     have hrec := loopL_good hl s0 total total 0 _ (by omega) hpre0
     refine ⟨hrec.1, ?_⟩
-    intro pre hp hpend
+    intro pre hp
     rcases prefix_append_cases hp with h | ⟨t, rfl, ht⟩
     · left
       rw [execs_frame]; exact hm
@@ -356,14 +216,7 @@ theorem runL_good {sys : Sys S} (hl : Lawful sys) (s0 : S) (total : Nat) {fs : F
       rcases List.mem_append.1 (mem_of_mem_prefix h ho) with h | h
       · exact mk_untouched o h _ hq
       · cases writeFile_touches _ _ _ o h hq
-    · rw [execs_append]
-      refine hrec.2.2 t ht ?_
-      rw [pend_append, pend_noreplace false] at hpend
-      · exact hpend
-      · intro o ho a b
-        rcases List.mem_append.1 ho with h | h
-        · exact mk_noreplace o h a b
-        · exact writeFile_noreplace _ _ o h a b
+    · rw [execs_append]; exact hrec.2 t ht
   rcases hg with hm | ⟨i, hi, hgi⟩
   · exact case_fresh hm
   · rcases hres with rfl | hm
@@ -386,37 +239,18 @@ theorem runL_good {sys : Sys S} (hl : Lawful sys) (s0 : S) (total : Nat) {fs : F
       have hprei : PreL sys s0 (i + 1) (execs fs preOps) := Or.inr ⟨i, rfl, hcong _ (List.prefix_refl _)⟩
       have hrec := loopL_good hl s0 total (total - (i + 1)) (i + 1) _ (by omega) hprei
       refine ⟨hrec.1, ?_⟩
-      intro pre hp hpend
+      intro pre hp
       rcases prefix_append_cases hp with h | ⟨t, rfl, ht⟩
       · exact Or.inr ⟨i, hi, hcong _ h⟩
-      · rw [execs_append]
-        refine hrec.2.2 t ht ?_
-        rw [pend_append, pend_noreplace false _ mk_noreplace] at hpend
-        exact hpend
+      · rw [execs_append]; exact hrec.2 t ht
     · exact case_fresh hm
 
-/-- directories reachable when every kill happens OUTSIDE the window (no latest.* file moved since the last marker move,
-    or no marker yet) -/
-inductive ReachL (sys : Sys S) (total : Nat) (s0 : S) : FS Path → Prop
-  | first (r0 : Bool) (k : Nat)
-      (hk : pend false ((run sys .repaired .latest r0 total s0 FS.empty).1.take k) = false ∨
-        crash FS.empty (run sys .repaired .latest r0 total s0 FS.empty).1 k .marker = none) :
-      ReachL sys total s0 (crash FS.empty (run sys .repaired .latest r0 total s0 FS.empty).1 k)
-  | again (fs : FS Path) (k : Nat) (h : ReachL sys total s0 fs)
-      (hk : pend false ((run sys .repaired .latest true total s0 fs).1.take k) = false ∨
-        crash fs (run sys .repaired .latest true total s0 fs).1 k .marker = none) :
-      ReachL sys total s0 (crash fs (run sys .repaired .latest true total s0 fs).1 k)
-
 theorem reachL_good {sys : Sys S} (hl : Lawful sys) (s0 : S) (total : Nat) {fs : FS Path}
-    (hr : ReachL sys total s0 fs) : GoodL sys s0 total fs := by
+    (hr : Reach sys .repaired .latest total s0 fs) : GoodL sys s0 total fs := by
   induction hr with
-  | first r0 k hk =>
-    rcases hk with hk | hk
-    · exact (runL_good hl s0 total r0 (Or.inl rfl) (Or.inr rfl)).2 _ (List.take_prefix _ _) hk
-    · exact Or.inl hk
-  | again fs k _ hk ih =>
-    rcases hk with hk | hk
-    · exact (runL_good hl s0 total true ih (Or.inl rfl)).2 _ (List.take_prefix _ _) hk
-    · exact Or.inl hk
+  | first r0 k =>
+    exact (runL_good hl s0 total r0 (Or.inl rfl) (Or.inr rfl)).2 _ (List.take_prefix _ _)
+  | again fs k _ ih =>
+    exact (runL_good hl s0 total true ih (Or.inl rfl)).2 _ (List.take_prefix _ _)
 
 end NiftyVerif.CrashCl
